@@ -216,6 +216,21 @@ PROPS = {
     },
 }
 
+PROPS["C19"] = {
+    "harness": "c19",
+    "quick": {"workers": 8, "cases": 300, "size": 22, "lib_timeout": 5},
+    "thorough": {"workers": 16, "cases": 4000, "size": 30, "lib_timeout": 20},
+    "min_nontrivial_frac": 0.3,
+    "min_tag_frac": {"source:repository-corpus": 0.05},
+    "rule": GEN_TA + "7/8 of the cases are generated pairs, 1/8 are pairs/triples of the automata shipped in the repository (tests/aut_timbuk_smaller, automata/small_timbuk, automata/moderate_artmc_timbuk). A twin of every operand is "
+            "rebuilt through AddTransition with a generated state bijection, a generated rule insertion order and a fresh private alphabet with the symbols registered in a generated order. Relations: every inclusion selection and "
+            "IsLangEmpty answer the same on the pair and on its twin; ComputeSimulation (downward on the automaton, upward on its trimmed form) on two different dense numberings relates the same pairs of original states; Reduce, "
+            "RemoveUselessStates and RemoveUnreachableStates produce the same numbers of states and rules; 18 language laws (A<=A, A<=AuB, AnB<=A for both intersections, chains (AuB)uC, A equivalent to Reduce(A), trimmed, re-indexed, "
+            "dumped-and-reloaded) hold under every selection; all selections agree; transitivity as an implication. Repository cases run one upward and one downward selection under a per-call budget (a slow call is inconclusive). "
+            "Non-trivial: the bijection moves a state and the automaton has a rule of arity >= 2. Distinct: hash of the case text.",
+    "assumptions": COMMON_ASSUMPTIONS + ["no reference oracle is used here: a defect that is invariant under renaming and respects the laws is invisible to this check (C01-C05 cover those on small inputs)"],
+}
+
 LEVEL_TEXT = {
     "C01": "Generated-input search with an exact, independently written inclusion oracle: thousands of small automaton pairs per run, each through all 8 selections (+ unprepared operands). Finds wrong verdicts, exceptions, hangs and memory errors on small witnesses; establishes nothing beyond the explored pairs.",
     "C02": "Generated pairs with overlapping/disjoint numbering; result language, semantic meaning of the translation maps, operand immutability and the CLI naming flow judged against reference union/product. Exploration of small automata only.",
